@@ -28,6 +28,8 @@ def r4(ctx):
 
 
 RULES = {
+    # no segment is skipped on its way to the arity and range checks (accumulator rule: every parsed segment is processed)
+    "C06.R11": lambda ctx: __import__("rules.decoderrules", fromlist=["x"]).accumulators(ctx, "C06.R11"),
     "C06.RG": lambda ctx: __import__("rules.foundations", fromlist=["x"]).no_global_state(ctx, "C06.RG"),
     "C06.R10": lambda ctx: __import__("rules.decoderrules", fromlist=["x"]).hermes_regular_part(ctx, "C06.R10"),
     # what was validated is what is stored (the arrays the indices were checked against reach the map unshortened), and
